@@ -121,8 +121,10 @@ def generate(rng, i, tier):
         return livegen.gen_c12_systematic(rng, i)
     if x < 0.57:
         return livegen.gen_live(rng, "C12")
-    if x < 0.65:
+    if x < 0.61:
         return livegen.gen_c12_async_retry(rng)
+    if x < 0.65:
+        return livegen.gen_cancel_race(rng)
     sc = lifecycle_common.scenario(rng, "C12")
     sc["world"] = "A"
     return sc
